@@ -75,6 +75,7 @@ struct caps_hp {
     typedef std::false_type has_minmax; typedef std::true_type has_iter; typedef std::true_type ordered_iter; typedef std::true_type counted;
     typedef std::false_type update_replaces;     // update() of an existing key keeps the old item (true: swaps in the new one)
     typedef std::false_type has_unlink;          // intrusive containers: unlink( item )
+    typedef std::false_type upd_default_value;   // maps: an item created by update() carries the default mapped value (0), see maps.h
     // thread-safe iterators (C19): may be used concurrently with updates; erase_at( iterator ); reverse iterators; every element present
     // for the whole iteration is visited exactly once (false: at least once)
     typedef std::false_type safe_iter; typedef std::false_type has_erase_at; typedef std::false_type has_riter; typedef std::true_type iter_exactly_once;
@@ -290,7 +291,7 @@ struct SetAdapter
         case HAS: { int i = h.call( t, HAS, k ); bool ok = st.contains( k ); h.ret( i, ok ); break; }
         case FIND_F: { int i = h.call( t, FIND_F, k ); long v = 0; bool ok = do_find_f( st, k, v, typename Caps::has_find_f()); h.ret( i, ok, ok ? v : 0 ); if ( !Caps::has_find_f::value ) h.ops[size_t( i )].op = HAS; break; }
         case UPD_INS: case UPD_NOINS: {
-            long v = op.b ? op.b : k * 10L + 5;
+            long v = Caps::upd_default_value::value ? 0 : ( op.b ? op.b : k * 10L + 5 );
             int i = h.call( t, op.op, k, v ); bool ins = false;
             bool ok = do_update( st, k, v, op.op == UPD_INS, ins, typename Caps::has_update());
             h.ret( i, ok, ins ); break;
